@@ -114,6 +114,8 @@ class JSONValidator:
             return True, None
         except json.JSONDecodeError as e:
             return False, f"Invalid JSON: {e}"
+        except RecursionError:
+            return False, f"JSON nesting too deep to parse (limit {self.max_depth})"
 
     def _measure_depth(self, obj, current: int = 0) -> int:
         """Measure nesting depth of JSON object."""
